@@ -8,13 +8,13 @@ require (
 	github.com/google/go-tdx-guest v0.0.0
 	github.com/google/logger v1.1.1
 	golang.org/x/crypto v0.17.0
+	golang.org/x/sys v0.19.0
 	google.golang.org/protobuf v1.34.2
 )
 
 require (
 	github.com/google/go-tpm v0.9.0 // indirect
 	go.uber.org/multierr v1.11.0 // indirect
-	golang.org/x/sys v0.19.0 // indirect
 )
 
 replace github.com/google/go-tdx-guest => /repo
